@@ -51,6 +51,10 @@ extern double evm_now(void);
 /* advance the loop time early (host applies external events at W) */
 extern void evm_set_now(double now);
 extern unsigned long evm_iter(void);
+/* the wall clock has been stepped by DT seconds (either direction): the loop
+ * time moves along, timers (monotonic) keep their distance, and the next
+ * iteration reschedules all periodics like libev does after a time jump */
+extern void evm_clock_step(double dt);
 /* number of active watchers of a kind: 'i' 't' 'p' 's' 'c' */
 extern int evm_nactive(int kind);
 
